@@ -30,7 +30,7 @@ pub fn spec(prop: &str, quick: bool) -> Option<CheckSpec> {
             rule: "enumerated short/extended deliveries and field values per base triple (run index = base triple), plus seeded structure-aware and raw mutations; every case through hbs_lms::verify, VerifyingKey+Signature::from_bytes, VerifyingKey+VerifierSignature::from_ref; non-trivial = the fault changed bytes and the outcome was classified; distinct = (shape, fault-kind sequence) hash",
         },
         "C08" => CheckSpec { property: "C08", level: "exploration", parts: vec![p("keygen", 6000, 40000)], exhaustive_note: None, rule: "seeds (zero, all-ones, single-bit, PRNG) x parameter lists (1..8 levels, all w, heights up to 10 on top, up to 25 below) x 8 hash instantiations x aux {none, assorted sizes}; every fourth run is SHA-256/32 with heights >= 5 and is compared with the files the hash-sigs binary writes for the same seed; non-trivial = a build-limit or aux 'fault' fired or the binary was consulted (counted via fault_fired/probes); distinct = (shape, op kinds) hash" },
-        "C09" => CheckSpec { property: "C09", level: "exploration", parts: vec![p("purity", 600, 6000)], exhaustive_note: None, rule: "3-6 keys per run with interleaved keygen/sign/load/lifetime ops; observed calls re-executed immediately, at the end of the run, through the other API, with aux, and (every 8th run) in a fresh child process; byte equality; non-trivial = at least one re-execution context fired; distinct = (shapes, op kinds) hash" },
+        "C09" => CheckSpec { property: "C09", level: "exploration", parts: vec![p("purity", 600, 6000), p("aux", 400, 3000)], exhaustive_note: None, rule: "3-6 keys per run with interleaved keygen/sign/load/lifetime ops; observed calls re-executed immediately, at the end of the run, through the other API, with aux, and (every 8th run) in a fresh child process; byte equality; plus the aux profile, in which every aux-assisted call is compared with the same call without aux (outputs must not depend on the cache file's content); non-trivial = at least one re-execution context or aux fault fired; distinct = (shapes, op kinds) hash" },
         "C10" => CheckSpec {
             property: "C10",
             level: "fault_enumeration",
@@ -41,8 +41,8 @@ pub fn spec(prop: &str, quick: bool) -> Option<CheckSpec> {
         "C11" => CheckSpec {
             property: "C11",
             level: "fault_enumeration",
-            parts: vec![p("storage", crate::gen2::storage_space(), crate::gen2::storage_space()), p("callback", 64, 256)],
-            exhaustive_note: Some("per hash: parameter-list lengths 0..10; key-file lengths 0..64 (two fills); every value of each of the 8 parameter bytes except those that decode to trees of height >= 15 (height 10 in the thorough tier only); counters {0, last-1, last, last+1, 2^32, 2^63, 2^64-1}; wiped, all-0xff and wrong-hash key files; aux lengths 0..40 zero/garbage/dirty for keygen and sign; every value of each level-word byte"),
+            parts: vec![p("storage", crate::gen2::storage_space(), crate::gen2::storage_space()), p("callback", 64, 256), p("aux-enum", crate::gen2::aux_enum_space(quick), crate::gen2::aux_enum_space(false))],
+            exhaustive_note: Some("per hash: parameter-list lengths 0..10; key-file lengths 0..64 (two fills); every value of each of the 8 parameter bytes except those that decode to trees of height >= 15 (height 10 in the thorough tier only); counters {0, last-1, last, last+1, 2^32, 2^63, 2^64-1}; wiped, all-0xff and wrong-hash key files; aux lengths 0..40 zero/garbage/dirty for keygen and sign; every value of each level-word byte; every truncation length, single-bit flip and padding 1..64 of a keygen-filled aux buffer (aux-enum part)"),
             rule: "enumerated storage corruption (run index = hash x section); each corrupted input goes to lifetime query, hbs_lms::sign, SigningKey::from_bytes + try_sign; oracle: Err, or Ok and model-correct, never a panic, callback silent on every non-Ok outcome; non-trivial = the fault changed the stored bytes; distinct = (hash, section, op kinds) hash",
         },
         "C13" => CheckSpec {
